@@ -26,12 +26,16 @@ for f in kf["findings"]:
     out.append(f"| {f['property']} | {f['status']}{' ' + f['commit'] if f.get('commit') and len(f['commit']) < 12 else ''} | `{f['signature']}` | {what} |")
 out += ["", "---", "", "## 7. Seeded breaking changes (fresh agents, property text only) and which check catches which", "",
         "Each change compiles, keeps the existing tests passing, comes with a demonstration that fails with it and passes "
-        "without it, and was confirmed in a scratch worktree (`tools/try_seeded.sh`).", "",
-        "| seeded change | property | needs, in order to manifest | detection |", "|---|---|---|---|"]
+        "without it, and was confirmed in a scratch worktree (`tools/try_seeded.sh`); the column *pinned tests* is the result "
+        "of the pinned test-suite run on /repo HEAD + the change (`tools/seeded_baseline.sh`, recorded in "
+        "`seeded/<name>/baseline.txt`).", "",
+        "| seeded change | property | needs, in order to manifest | detection | pinned tests |", "|---|---|---|---|---|"]
 for m in sorted(glob.glob(os.path.join(V, "seeded/*/meta.json"))):
     d = json.load(open(m))
     name = os.path.basename(os.path.dirname(m))
-    out.append(f"| `{name}` | {d['property']} | {d['needs_to_manifest'].replace('|', '/')} | {d.get('detection','')}: {d['caught_by'].replace('|', '/')} |")
+    bp = os.path.join(os.path.dirname(m), "baseline.txt")
+    base = open(bp).read().strip().replace("|", "/") if os.path.exists(bp) else "not run"
+    out.append(f"| `{name}` | {d['property']} | {d['needs_to_manifest'].replace('|', '/')} | {d.get('detection','')}: {d['caught_by'].replace('|', '/')} | {base} |")
 out += ["", "---", "", open(os.path.join(V, "meta/design/tail.md")).read().rstrip(), ""]
 open(os.path.join(V, "DESIGN.md"), "w").write("\n".join(out))
 print("DESIGN.md written:", sum(len(x) for x in out), "chars")
